@@ -10,6 +10,8 @@ sys.path.insert(0, os.path.join(HERE, "harness"))
 props = [json.loads(l) for l in open(os.path.join(HERE, "properties.jsonl"))]
 BASELINE = ("cd /repo && /venv/bin/python -m pytest -ra -q -p no:cacheprovider --timeout=900 "
             "--continue-on-collection-errors")
+# properties whose check has been run to completion on the unchanged tree by the coordinator
+READY = {"C01", "C03", "C06", "C07", "C08", "C09", "C12", "C15", "C16", "C17", "C20"}
 checks, na, served = [], [], []
 for p in props:
     pid = p["id"]
@@ -17,7 +19,7 @@ for p in props:
         if not os.path.exists(os.path.join(HERE, "coq", "props", pid + ".v")):
             raise ImportError("no theorem file yet")
         mod = importlib.import_module(pid.lower())
-        if mod.SPEC.get("wip"):
+        if mod.SPEC.get("wip") or pid not in READY:
             raise ImportError("work in progress")
     except ImportError:
         na.append({"property_id": pid,
